@@ -1,8 +1,29 @@
 (* Props/C17.v — theorems of property C17 (snapshot journalling).  Statements only; proofs in Proofs/Journal*.v. *)
 From Coq Require Import ZArith List Bool Sorted Permutation.
-From EV Require Import Res Arr Journal JournalSpec JournalBase JournalWalk JournalMerge JournalSort JournalMain.
+From EV Require Import Res Arr Journal JournalSpec JournalBase JournalWalk JournalMerge JournalSort JournalMain JournalFinal.
 Import ListNotations.
 Open Scope Z_scope.
+
+
+(* 0. MAIN THEOREM (full strength, all sizes, arbitrary physical order of both tables, any number of numeric /
+      indexed-string payload columns): with the stated closed-form fuel the model of journal_table terminates, raises
+      nothing, performs no out-of-bounds access and returns exactly the columns of the specification
+      (per key ascending: old versions in j_valid_from order, then the new record iff the key is new or some compared
+      field differs from the latest old version). *)
+Theorem journal_table_correct : forall fuel okeys ovf nkeys fields,
+  length okeys = length ovf -> NoDup nkeys -> Forall wf_field fields ->
+  Z.of_nat fuel > len okeys + len nkeys ->
+  journal_table fuel okeys ovf nkeys fields = Ok (journal_spec okeys ovf nkeys fields).
+Proof. exact JournalFinal.journal_table_correct. Qed.
+Print Assumptions journal_table_correct.
+
+(* the fuel used by the wire entry satisfies the bound *)
+Theorem journal_fuel_enough : forall okeys nkeys, Z.of_nat (journal_fuel okeys nkeys) > len okeys + len nkeys.
+Proof. intros. unfold journal_fuel, len. rewrite Nat2Z.inj_succ, Nat2Z.inj_add. apply Z.lt_gt, Z.lt_succ_diag_r. Qed.
+Print Assumptions journal_fuel_enough.
+
+(* if every key's versions are physically stored in ascending j_valid_from order (the state journalling itself
+   produces), "old versions in j_valid_from order" is the physical order: see versions_physical below. *)
 
 (* 1. ordered_generate_journalling_indices (both passes, all sizes): one joint row per distinct key in ascending
       order; old_map = last old position of the key or -1, new_map = its snapshot position or -1
@@ -121,3 +142,11 @@ Theorem journal_table_spec_example :
   journal_table 10 [1;0;0;2] [1;2;1;1] [3;0;1] fields = Ok (journal_spec [1;0;0;2] [1;2;1;1] [3;0;1] fields).
 Proof. vm_compute. reflexivity. Qed.
 Print Assumptions journal_table_spec_example.
+
+(* 8. "old versions in their original order": when a key's versions are physically stored oldest first, the
+      specification's history order is the physical order of those rows *)
+Theorem versions_physical : forall okeys ovf k,
+  StronglySorted (fun a b => nthZ ovf a <= nthZ ovf b) (filter (fun i => nthZ okeys i =? k) (upto (length okeys))) ->
+  versions okeys ovf k = filter (fun i => nthZ okeys i =? k) (upto (length okeys)).
+Proof. exact JournalFinal.versions_physical. Qed.
+Print Assumptions versions_physical.
